@@ -400,6 +400,12 @@ class _PtyProxy:
 
     @staticmethod
     def openpty():
+        if _active():
+            # A pty hands data from slave to master through a kernel work queue, so readiness right
+            # after a write is timing dependent - a determinism breaker.  Report "out of pty devices":
+            # xonsh's own fallback (PipeChannel.from_pty -> os.pipe) then runs, over a simulated pipe.
+            STATS["ptys"] += 1
+            raise OSError(errno.ENOSPC, "out of pty devices (simulated)")
         return sim_openpty()
 
 
